@@ -189,6 +189,16 @@ def check_identity(case, ctx):
     keep = copy.deepcopy(objs)
     guarded_job(m, dict(job, op="rate", call={}), "warm-up", objs)
     variants["same-ids-seen-before"] = guarded_job(m, job, "seen", keep)
+    if job["op"] != "rate":
+        # value-equal teams passed as one and the same list object (predictions do not modify ratings)
+        m = mk_model(cfg)
+        objs = mk_teams(m, job["teams"])
+        first = {}
+        shared = []
+        for i, t in enumerate(job["teams"]):
+            key = repr(t)
+            shared.append(objs[first.setdefault(key, i)])
+        variants["value-equal-teams-as-one-object"] = guarded_job(m, job, "shared", shared)
     ctx.called(7)
     for name, res in variants.items():
         if res != base:
